@@ -173,6 +173,9 @@ impl Property for C07 {
         });
         Box::new(single.chain(rt).chain(pairs))
     }
+    fn fuzz_plans(&self) -> Vec<(&'static str, u64)> {
+        vec![("history", 10000)]
+    }
     fn gen(&self, c: &mut Choices) -> Case {
         Case::Hist(history::gen_history(c, None))
     }
